@@ -51,6 +51,8 @@ class Group:
         self._gateways: list[Gateway] = []
         self._autoidcounter = 0
         self._autoidlock = Lock()
+        # ids reserved by makegateway() calls which are still creating their gateway
+        self._reserved_ids: set[str] = set()
         self._gateways_to_join: list[Gateway] = []
         # we use the same execmodel for all of the Gateway objects
         # we spawn on our side.  Probably we should not allow different
@@ -140,28 +142,34 @@ class Group:
             spec = self.defaultspec
         if not isinstance(spec, XSpec):
             spec = XSpec(spec)
-        self.allocate_id(spec)
-        if spec.execmodel is None:
-            spec.execmodel = self.remote_execmodel.backend
-        if spec.via:
-            assert not spec.socket
-            master = self[spec.via]
-            proxy_channel = master.remote_exec(gateway_io)
-            proxy_channel.send(vars(spec))
-            proxy_io_master = gateway_io.ProxyIO(proxy_channel, self.execmodel)
-            gw = gateway_bootstrap.bootstrap(proxy_io_master, spec)
-        elif spec.popen or spec.ssh or spec.vagrant_ssh:
-            io = gateway_io.create_io(spec, execmodel=self.execmodel)
-            gw = gateway_bootstrap.bootstrap(io, spec)
-        elif spec.socket:
-            from . import gateway_socket
+        # check and reserve the id before any process or connection is created
+        self._reserve_id(spec)
+        try:
+            if spec.execmodel is None:
+                spec.execmodel = self.remote_execmodel.backend
+            if spec.via:
+                assert not spec.socket
+                master = self[spec.via]
+                proxy_channel = master.remote_exec(gateway_io)
+                proxy_channel.send(vars(spec))
+                proxy_io_master = gateway_io.ProxyIO(proxy_channel, self.execmodel)
+                gw = gateway_bootstrap.bootstrap(proxy_io_master, spec)
+            elif spec.popen or spec.ssh or spec.vagrant_ssh:
+                io = gateway_io.create_io(spec, execmodel=self.execmodel)
+                gw = gateway_bootstrap.bootstrap(io, spec)
+            elif spec.socket:
+                from . import gateway_socket
 
-            sio = gateway_socket.create_io(spec, self, execmodel=self.execmodel)
-            gw = gateway_bootstrap.bootstrap(sio, spec)
-        else:
-            raise ValueError(f"no gateway type found for {spec._spec!r}")
-        gw.spec = spec
-        self._register(gw)
+                sio = gateway_socket.create_io(spec, self, execmodel=self.execmodel)
+                gw = gateway_bootstrap.bootstrap(sio, spec)
+            else:
+                raise ValueError(f"no gateway type found for {spec._spec!r}")
+            gw.spec = spec
+            self._register(gw)
+        except BaseException:
+            with self._autoidlock:
+                self._reserved_ids.discard(spec.id)
+            raise
         if spec.chdir or spec.nice or spec.env:
             channel = gw.remote_exec(
                 """
@@ -187,21 +195,41 @@ class Group:
         """(re-entrant) allocate id for the given xspec object."""
         if spec.id is None:
             with self._autoidlock:
-                id = "gw" + str(self._autoidcounter)
-                self._autoidcounter += 1
-                if id in self:
-                    raise ValueError(f"already have gateway with id {id!r}")
-                spec.id = id
+                self._allocate_id(spec)
+
+    def _allocate_id(self, spec: XSpec) -> None:
+        # to be called with self._autoidlock held
+        id = "gw" + str(self._autoidcounter)
+        self._autoidcounter += 1
+        if self._id_taken(id):
+            raise ValueError(f"already have gateway with id {id!r}")
+        spec.id = id
+
+    def _id_taken(self, id: str) -> bool:
+        return id in self._reserved_ids or any(gw.id == id for gw in self._gateways)
+
+    def _reserve_id(self, spec: XSpec) -> None:
+        """Allocate an id if the spec has none, and reserve it for this group."""
+        with self._autoidlock:
+            if spec.id is None:
+                self._allocate_id(spec)
+            elif self._id_taken(spec.id):
+                raise ValueError(f"already have gateway with id {spec.id!r}")
+            self._reserved_ids.add(spec.id)
 
     def _register(self, gateway: Gateway) -> None:
         assert not hasattr(gateway, "_group")
         assert gateway.id
-        assert gateway.id not in self
-        self._gateways.append(gateway)
+        with self._autoidlock:
+            if any(gw.id == gateway.id for gw in self._gateways):
+                raise ValueError(f"already have gateway with id {gateway.id!r}")
+            self._gateways.append(gateway)
+            self._reserved_ids.discard(gateway.id)
         gateway._group = self
 
     def _unregister(self, gateway: Gateway) -> None:
-        self._gateways.remove(gateway)
+        with self._autoidlock:
+            self._gateways.remove(gateway)
         self._gateways_to_join.append(gateway)
 
     def _cleanup_atexit(self) -> None:
